@@ -17,6 +17,17 @@ def _res(fn, *a):
     return ("ok", r)
 
 
+def _both(fn, s):
+    """call fn on the str and on its utf-8 bytes (the helpers accept both); one result when they agree"""
+    r = _res(fn, s)
+    try:
+        b = s.encode("utf-8")
+    except UnicodeEncodeError:   # lone surrogates: only the str form exists
+        return (r,)
+    rb = _res(fn, b)
+    return (r,) if rb == r else (r, ("bytes-variant-differs",) + rb)
+
+
 class C26(core.Check):
     pid = "C26"
     pkg = "B64"
@@ -95,17 +106,20 @@ class C26(core.Check):
             if a[0] != "ok":
                 return (a,)
             s = "".join(chr(c) for c in a[1:])
-            return (a, _res(helping.b64ToInt, s))
+            return (a,) + _both(helping.b64ToInt, s)
         if kind == "code":
             s = "".join(chr(c) for c in case[1])
-            a = _res(helping.codeB64ToB2, s)
+            a2 = _both(helping.codeB64ToB2, s)
+            if len(a2) > 1:
+                return a2
+            a = a2[0]
             if a[0] != "ok":
                 return (a,)
             return (a, _res(helping.codeB2ToB64, bytes(a[1:]), len(s)))
         if kind == "nab":
             return (_res(helping.nabSextets, bytes(case[1]), case[2]),)
         if kind == "dec":
-            return (_res(helping.b64ToInt, "".join(chr(c) for c in case[1])),)
+            return _both(helping.b64ToInt, "".join(chr(c) for c in case[1]))
         raise core.Infra(f"bad case {case!r}")
 
     def oracle(self, case, obs):
@@ -118,14 +132,14 @@ class C26(core.Check):
                 nd += 1
             if obs[0][0] != "ok":
                 bad.append("intToB64-raised")
-            elif len(obs) < 2 or obs[1] != ("ok", n):
+            elif len(obs) != 2 or obs[1] != ("ok", n):
                 bad.append("int-roundtrip")
             if obs[0][0] == "ok" and len(obs[0]) - 1 != max(l, nd):
                 bad.append("int-length")
         elif kind == "code":
             s = case[1]
             if s and all(chr(c) in B64 for c in s):
-                if obs[0][0] != "ok" or len(obs) < 2 or obs[1] != ("ok",) + tuple(s):
+                if obs[0][0] != "ok" or len(obs) != 2 or obs[1] != ("ok",) + tuple(s):
                     bad.append("code-roundtrip")
                 elif len(obs[0]) - 1 != -(-len(s) * 3 // 4):
                     bad.append("code-b2-length")
